@@ -686,6 +686,14 @@ fn sc_toggles(t: &mut Tracer) {
     w.update_config(&o, Some(pm::FeatureToggle { pool_identifier: "o.zzz".into(), swaps_enabled: Some(true), deposits_enabled: None, withdrawals_enabled: None }), None, &[], "unknown pool");
     w.update_config(&o, Some(pm::FeatureToggle { pool_identifier: "o.ss1".into(), swaps_enabled: Some(true), deposits_enabled: None, withdrawals_enabled: None }), None, &[], "ss1 swaps on");
     w.swap(&a, "o.ss1", &[coin(1000, "uusd")], "uusdc", None, half, None);
+    // the swap switch of a three-asset pool does not concern deposits that bring some but not all of its assets
+    w.update_config(&o, Some(pm::FeatureToggle { pool_identifier: "o.ss3".into(), swaps_enabled: Some(false), deposits_enabled: None, withdrawals_enabled: None }), None, &[], "ss3 swaps off");
+    w.provide(&a, "o.ss3", &sorted(vec![coin(10_000_000, "uusd"), coin(11_000_000, "uusdt")]), None, None, None, None, None);
+    w.provide(&a, "o.ss3", &sorted(vec![coin(10_000_000, "uusd"), coin(11_000_000, "uusdt"), coin(9_000_000_000_000_000_000, "uweth")]), None, None, None, None, None);
+    w.provide(&a, "o.ss3", &[coin(10_000_000, "uusd")], None, None, None, None, half); // one asset of three: refused as before
+    w.swap(&a, "o.ss3", &[coin(1000, "uusd")], "uusdt", None, half, None);
+    w.update_config(&o, Some(pm::FeatureToggle { pool_identifier: "o.ss3".into(), swaps_enabled: None, deposits_enabled: Some(false), withdrawals_enabled: None }), None, &[], "ss3 deposits off too");
+    w.provide(&a, "o.ss3", &sorted(vec![coin(10_000_000, "uusd"), coin(11_000_000, "uusdt")]), None, None, None, None, None);
 }
 
 /// C13: offers straddling the tolerance, belief prices, deposit tolerances
